@@ -65,6 +65,9 @@ TABLE = {
   "C06": ("exact request->plan model in Lean (reusing the C09/C12/C13/C14 models) + endpoint value vs libsigopt's compute layer instantiated from the Lean plan",
           "Proved for every well-formed request, phase and sort outcome: the plan handed to the compute layer is total and shape-consistent; each GP is built from its metric's own column and hyperparameters; lies last, worst value, lie noise; failures carry the lie; scaled range and sign (via C12); one-hot encoding with task column (via C09); the acquisition-function / failure-model / threshold / cost decision table; epsilon thresholds. The endpoint value is tied on every run to the compute layer evaluated on the Lean plan within 1e-8 relative plus measured rounding noise.",
           "Numeric GP/EI/PF evaluation is delegated to C02/C03/C05; qEI is seed-matched; ties on which the property is silent (argsort among equal lies, epsilon label on an exact tie) handled liberally.", "3/C06"),
+  "C04": ("Lean 4 + Mathlib HasDerivAt proofs over the polymorphic Arith model (Real for theorems, Float executed bit-exactly) + Richardson/Ridders finite-difference oracle on the implementation + model-vs-library correspondence for all gradient entry points",
+          "Proved for all dimensions, points (incl. coincident), hyperparameters, weights and list lengths that every modelled gradient is the derivative of its value: radial kernels (input, length scale, alpha), multitask product rule, polynomial and GP mean/variance gradients, GP sum, sqrt-var, EI (Gaussian Phi' = phi and z Phi + phi >= 0 proved), AEI penalty, EI x penalty, logistic / CDF / product success probabilities, cost scaling, Parzen ratio, log-domain chain rule.",
+          "Not proved: the general-n likelihood trace formula (n=1 only; compared numerically), symmetry of K^-1 (hypothesis), IEEE rounding; variance-clamp and exponent-cap regions stated as implemented; scipy ndtr = Gaussian CDF is trusted.", "3/C04"),
 }
 
 
